@@ -4,8 +4,8 @@ use crate::parser::attributes::VariantAttrForwarding;
 use crate::parser::check_generics::{CheckGenerics, GetPath};
 use crate::parser::variant_descs::VariantDescs;
 use crate::parser::{process_fields, MsgAttr, MsgType};
-use crate::utils::{extract_return_type, filter_wheres, SvCasing};
-use convert_case::{Case, Casing};
+use crate::utils::{extract_return_type, filter_wheres, serde_snake_case, SvCasing};
+use convert_case::Case;
 use proc_macro2::TokenStream;
 use quote::{quote, ToTokens};
 use syn::fold::Fold;
@@ -267,10 +267,15 @@ where
             .map(|variant| variant.emit_dispatch_leg())
     }
 
+    /// Names under which the variants are (de)serialized.
+    ///
+    /// The generated enums are annotated with `#[serde(rename_all = "snake_case")]`,
+    /// so the names have to be derived with the `serde` rule and not the `convert_case` one
+    /// as they differ e.g. for identifiers containing digits (`Foo1Bar` -> `foo1_bar`).
     pub fn as_names_snake_cased(&self) -> Vec<String> {
         self.variants
             .iter()
-            .map(|variant| variant.name.to_string().to_case(Case::Snake))
+            .map(|variant| serde_snake_case(&variant.name.to_string()))
             .collect()
     }
 
